@@ -20,6 +20,8 @@ final-`normalize` guards).  This file supplies what was missing:
 set_option linter.unusedSectionVars false
 set_option linter.unusedSimpArgs false
 set_option linter.unusedVariables false
+set_option linter.unusedTactic false
+set_option linter.unreachableTactic false
 namespace Brax.C03
 open Brax Filter Topology
 
@@ -843,9 +845,8 @@ theorem SoundQ4.gen_fromTo {v1 v2 : ℝ → V3 (Dual ℝ)} (h1 : SoundV3 v1 t) (
 /-- (P) for `Gen.fromTo`, every input (both branches) -/
 theorem reQ4_gen_fromTo (v1 v2 : V3 (Dual ℝ)) :
     reQ4 (Gen.fromTo v1 v2) = Gen.fromTo (reV3 v1) (reV3 v2) := by
-  simp only [Gen.fromTo, reQ4, reV3, apply_ite Dual.re, decide_eq_true_eq, Sound.lt_iff,
-    Sound.div_re, Sound.sqrt_re, Sound.add_re, Sound.mul_re, Sound.sub_re, Sound.one_re,
-    Sound.ofSci_re]
+  simp only [Gen.fromTo, reQ4, reV3, apply_ite Dual.re, Sound.div_re, Sound.sqrt_re, Sound.add_re,
+    Sound.mul_re, Sound.sub_re, Sound.one_re, Sound.ofSci_re]
   rfl
 
 /-- **`Gen.fromTo`: the tangent of the dual run is the derivative of the real run**, generic branch -/
@@ -1132,5 +1133,64 @@ theorem gen_normalize3_deriv {v : ℝ → V3 (Dual ℝ)} (hv : SoundV3 v t)
   exact h
 
 end gen3
+
+/-! ## the slide guard is necessary -/
+
+/-- the `w` component of the joint rotation of a slide dof (rotation axis `0`) -/
+noncomputable def slideW (q : ℝ) : ℝ := (normalize4 (quatRotAxis (⟨0, 0, 0⟩ : V3 ℝ) q)).w
+
+theorem slideW_of_big (q : ℝ) (h : 1e-8 < Real.cos (q / 2)) : slideW q = 1 := by
+  unfold slideW; rw [normalize4_quatRotAxis_zero q h]; rfl
+
+theorem slideW_at (q : ℝ) (h : Real.cos (q / 2) = 1e-8) : slideW q = 1e-2 := by
+  have h2 : (1 + 1 : ℝ) = 2 := by norm_num
+  have hq : quatRotAxis (⟨0, 0, 0⟩ : V3 ℝ) q = ⟨1e-8, 0, 0, 0⟩ := by
+    simp only [quatRotAxis, HasTrig.sin, HasTrig.cos, h2, zero_mul, h]
+  have hc : allClose0 [(1e-8 : ℝ), 0, 0, 0] = true := by
+    rw [allClose0_iff]; intro x hx
+    simp only [List.mem_cons, List.mem_nil_iff, or_false] at hx
+    rcases hx with rfl | rfl | rfl | rfl <;> norm_num
+  have hn : safeNorm4 (⟨1e-8, 0, 0, 0⟩ : Q4 ℝ) = 0 := by
+    simp only [safeNorm4, safeNormL, hc, if_true]
+  have e0 : eqZero (0 : ℝ) = true := (eqZero_iff _).mpr rfl
+  unfold slideW
+  rw [hq]
+  simp only [normalize4, hn, e0, if_true]
+  norm_num
+
+/-- **the slide guard is necessary**: there is a slide coordinate `q₀` with `cos(q₀/2) = 1e-8` at which
+the joint rotation computed by `jcalc` is discontinuous — so `Kin.forward` has no derivative there -/
+theorem slide_guard_needed : ∃ q0 : ℝ, Real.cos (q0 / 2) = 1e-8 ∧ ¬ ContinuousAt slideW q0 := by
+  have hr : (1e-8 : ℝ) ∈ Set.Icc (-1 : ℝ) 1 := ⟨by norm_num, by norm_num⟩
+  refine ⟨2 * Real.arccos 1e-8, ?_, ?_⟩
+  · rw [mul_div_cancel_left₀ _ (by norm_num : (2 : ℝ) ≠ 0), Real.cos_arccos hr.1 hr.2]
+  · intro hcont
+    set a := Real.arccos 1e-8 with ha
+    have hapos : 0 < a := Real.arccos_pos.mpr (by norm_num)
+    have hval : slideW (2 * a) = 1e-2 :=
+      slideW_at _ (by rw [mul_div_cancel_left₀ _ (by norm_num : (2 : ℝ) ≠ 0), Real.cos_arccos hr.1 hr.2])
+    have hlt : ∀ᶠ u in 𝓝 (2 * a), slideW u < 1 / 2 := by
+      have : slideW (2 * a) < 1 / 2 := by rw [hval]; norm_num
+      exact hcont.eventually_lt continuousAt_const this
+    have hleft : ∀ᶠ u in 𝓝[<] (2 * a), slideW u = 1 := by
+      have hmem : Set.Ioo 0 (2 * a) ∈ 𝓝[<] (2 * a) := Ioo_mem_nhdsLT (by linarith)
+      filter_upwards [hmem] with u hu
+      apply slideW_of_big
+      have hu2 : u / 2 < a := by linarith [hu.2]
+      have hu0 : 0 ≤ u / 2 := by linarith [hu.1]
+      have hle : a ≤ Real.pi := Real.arccos_le_pi _
+      have := Real.cos_lt_cos_of_nonneg_of_le_pi hu0 hle hu2
+      rw [ha, Real.cos_arccos hr.1 hr.2] at this
+      exact this
+    have hboth := (hlt.filter_mono nhdsWithin_le_nhds).and hleft
+    obtain ⟨u, h1, h2⟩ := hboth.exists
+    rw [h2] at h1; norm_num at h1
+
+/-- `slideW` is what `jcalc` computes for a dof with zero rotation axis -/
+theorem jcalcDof_slide_rot_w (d : DofP ℝ) (h : d.motion.ang = ⟨0, 0, 0⟩) (q qd : ℝ) :
+    (Kin.jcalcDof d q qd).1.rot.w = slideW q := by
+  unfold slideW
+  show (normalize4 (quatRotAxis d.motion.ang q)).w = _
+  rw [h]
 
 end Brax.C03
